@@ -247,19 +247,68 @@ func C09(ctx *core.Ctx) {
 		} else {
 			ok, why := rangeCopiesAllBut(rr, headers, "AddRequestHeader", al, opid)
 			ctx.Check(ok, "C09.R2", rn+" › every wire header except _opid becomes a request header", fnPos(r, rr), "range over the headers read, AddRequestHeader(name, value) unless name == _opid", "the server-side context does not carry all request headers: "+why)
-			// response op id
-			okID := false
+			// response-header writes of rr on the new context: direct
+			// AddResponseHeader calls, or calls of a helper of the package whose
+			// body is such a call on its parameters (setResponseOpID)
+			type rhWrite struct {
+				key string
+				val ssa.Value
+			}
+			var writes []rhWrite
+			unboxed := func(v ssa.Value) ssa.Value {
+				if mi, ok := v.(*ssa.MakeInterface); ok {
+					return ssax.Strip(mi.X)
+				}
+				return ssax.Strip(v)
+			}
 			for _, c := range ssax.Calls(rr) {
-				if c.Static != nil && c.Static.Name() == "setResponseOpID" {
-					if tup, k := ExtractOf(c.Common.Args[1], 0); k {
-						if lk, k2 := tup.(*ssa.Lookup); k2 && lk.CommaOk && ssax.Strip(lk.X) == headers {
-							if s, k3 := ConstString(lk.Index); k3 && s == opid {
-								if mi, k4 := c.Common.Args[0].(*ssa.MakeInterface); k4 && ssax.Strip(mi.X) == al {
-									okID = true
-								}
-							}
+				if c.ShortName() == "AddResponseHeader" {
+					args := c.Args()
+					if k, isC := ConstString(args[1]); isC && len(args) == 3 && unboxed(args[0]) == al {
+						writes = append(writes, rhWrite{k, args[2]})
+					}
+					continue
+				}
+				g := c.Static
+				if g == nil || g.Pkg != r.Pkg || len(g.Blocks) == 0 {
+					continue
+				}
+				for _, c2 := range ssax.Calls(g) {
+					if c2.ShortName() != "AddResponseHeader" || len(c2.Args()) != 3 {
+						continue
+					}
+					a2 := c2.Args()
+					k, isC := ConstString(a2[1])
+					pi, pv := -1, -1
+					for i, q := range g.Params {
+						if unboxed(a2[0]) == ssa.Value(q) {
+							pi = i
+						}
+						if ssax.Strip(a2[2]) == ssa.Value(q) {
+							pv = i
 						}
 					}
+					if isC && pi >= 0 && pv >= 0 && pi < len(c.Common.Args) && pv < len(c.Common.Args) && unboxed(c.Common.Args[pi]) == al {
+						writes = append(writes, rhWrite{k, c.Common.Args[pv]})
+					}
+				}
+			}
+			wireHeader := func(v ssa.Value, key string, commaOk bool) bool {
+				v = ssax.Strip(v)
+				if tup, k := ExtractOf(v, 0); k {
+					v = tup
+				}
+				lk, k2 := v.(*ssa.Lookup)
+				if !k2 || ssax.Strip(lk.X) != headers || (commaOk && !lk.CommaOk) {
+					return false
+				}
+				s, k3 := ConstString(lk.Index)
+				return k3 && s == key
+			}
+			okID := false
+			for _, w := range writes {
+				if w.key == opid && wireHeader(w.val, opid, true) {
+					okID = true
 				}
 			}
 			ctx.Check(okID, "C09.R2", rn+" › response op id = the request's wire op id", fnPos(r, rr), "setResponseOpID(ctx, headers[_opid])", "the reply will not carry the request's op id: the client cannot correlate it")
@@ -298,14 +347,16 @@ func C09(ctx *core.Ctx) {
 			ctx.Check(okMiss, "C09.R2", rn+" › request without op id is rejected", fnPos(r, rr), "missing _opid ⇒ error return", "a request without op id is processed: its reply cannot be correlated")
 			// cid echo
 			okCid := false
-			for _, c := range ssax.Calls(rr) {
-				if c.ShortName() == "AddResponseHeader" {
-					args := c.Args()
-					if k, isC := ConstString(args[1]); isC && k == cid && ssax.Strip(args[0]) == al {
-						if cc, isCall := CallValue(args[2]); isCall && cc.ShortName() == "CorrelationID" && ssax.Strip(cc.Args()[0]) == al {
-							okCid = true
-						}
-					}
+			for _, w := range writes {
+				if w.key != cid {
+					continue
+				}
+				// the context's own correlation id (all wire headers were copied into it) or the wire header itself
+				if cc, isCall := CallValue(w.val); isCall && cc.ShortName() == "CorrelationID" && unboxed(cc.Args()[0]) == al {
+					okCid = true
+				}
+				if wireHeader(w.val, cid, false) {
+					okCid = true
 				}
 			}
 			ctx.Check(okCid, "C09.R2", rn+" › correlation id echoed into the response headers", fnPos(r, rr), "AddResponseHeader(_cid, ctx.CorrelationID())", "the response does not carry the request's correlation id")
@@ -433,7 +484,9 @@ func C09(ctx *core.Ctx) {
 				if k, isC := ConstString(keyV); isC {
 					keySet = k
 				}
-				if fc, isCall := CallValue(valV); isCall && fc.FullName() == "strconv.FormatInt" {
+				// the text may be produced by a small encoding helper handed the duration
+				encV, back := ThroughCall(r, valV)
+				if fc, isCall := CallValue(encV); isCall && fc.FullName() == "strconv.FormatInt" {
 					radSet, _ = ssax.ConstInt(fc.Common.Args[1])
 					// the encoded value is d/unit, possibly selected against clamping constants (φ)
 					seen := map[ssa.Value]bool{}
@@ -452,7 +505,7 @@ func C09(ctx *core.Ctx) {
 								walk(e)
 							}
 						case *ssa.BinOp:
-							if x.Op == token.QUO && IsParam(x.X, st, 1) {
+							if x.Op == token.QUO && IsParam(back(x.X), st, 1) {
 								unitSet, _ = ssax.ConstInt(x.Y)
 							}
 						}
@@ -461,7 +514,13 @@ func C09(ctx *core.Ctx) {
 				}
 			}
 		})
-		ssax.Instrs(gt, func(in ssa.Instruction) {
+		var gtCone []*ssa.Function // Timeout and the unexported helpers it decodes through
+		for _, g := range localCone(gt, 1) {
+			if g == gt || (g.Object() != nil && !g.Object().Exported()) {
+				gtCone = append(gtCone, g)
+			}
+		}
+		forInstrs(gtCone, func(in ssa.Instruction) {
 			if lk, ok := in.(*ssa.Lookup); ok {
 				if k, isC := ConstString(lk.Index); isC {
 					keyGet = k
@@ -532,4 +591,10 @@ func headerConsumer(r *RT, entry *ssa.Function) (*ssa.Function, ssa.Value) {
 		}
 	}
 	return entry, headers
+}
+
+func forInstrs(fns []*ssa.Function, f func(ssa.Instruction)) {
+	for _, g := range fns {
+		ssax.Instrs(g, f)
+	}
 }
